@@ -240,8 +240,6 @@ def run(ctx):
         own = [m_ for m_ in REWRITERS if m_ in kc.methods]
         if len(own) < 2:
             continue
-        if repo.is_subclass(kc, repo.cls('cirq.ops.raw_types.Gate')):
-            continue               # gates own a key, they do not wrap children
         from ..flow import name_deps
 
         def applied(fn_, pf_):
@@ -253,8 +251,11 @@ def run(ctx):
             dep = name_deps(fn_, {}, source_of=src)
             out_ = set()
             for c_ in ast.walk(fn_):
-                if isinstance(c_, ast.Call) and call_name(c_) == pf_:
-                    for a_ in list(c_.args) + [k_.value for k_ in c_.keywords]:
+                if isinstance(c_, ast.Call) and call_name(c_) in (pf_, '_' + pf_ + '_'):
+                    exprs = list(c_.args) + [k_.value for k_ in c_.keywords]
+                    if isinstance(c_.func, ast.Attribute):
+                        exprs.append(c_.func.value)        # key._with_key_path_(path): the receiver is what gets rewritten
+                    for a_ in exprs:
                         for x_ in ast.walk(a_):
                             if isinstance(x_, ast.Name):
                                 out_ |= dep.get(x_.id, set())
@@ -402,6 +403,78 @@ def run(ctx):
                 ok = not in_abs
                 msg = f'{mn} repeats the raw nested circuit by abs(repetitions): the inversion requested by a negative count is lost'
             ctx.ob('C12.i', f'{CO}.{mn}:repetition-sign', ok, '' if ok else msg, rel, line)
+
+    # ------------------------------------------------------------------ C12.j
+    ctx.decided.append('C12.j remapping the keys of a multi-key condition is a simultaneous substitution (interpreted on a two-key model for every map over three names)')
+    ctx.rule('C12.j', 'simultaneous key substitution: SympyCondition under with_measurement_key_mapping(key_map) has keys (key_map(a), key_map(b)) for every key_map - a chain '
+             'of one-key replacements on an accumulating value applies a later replacement to the image of an earlier one (the swap {a: b, b: a} gives a > a)', floor=9, style='FDX')
+    import itertools as _it
+    from .. import fdx
+    sc = repo.cls('cirq.value.condition.SympyCondition')
+    r_ = repo.find_method(sc, '_with_measurement_key_mapping_')
+    if r_ is None:
+        raise AnalysisError('SympyCondition._with_measurement_key_mapping_ vanished')
+    owner_, fn_ = r_
+
+    class Ex:
+        """model of a sympy expression over key symbols: an ordered tuple of names"""
+        def __init__(self, names):
+            self.names = tuple(names)
+
+        def subs(self, mapping, simultaneous=False):
+            m = {str(k): str(v) for k, v in (mapping.items() if isinstance(mapping, dict) else mapping)}
+            if simultaneous:
+                return Ex(m.get(n_, n_) for n_ in self.names)
+            cur = list(self.names)
+            for k_, v_ in m.items():           # sympy applies the pairs one after the other
+                cur = [v_ if n_ == k_ else n_ for n_ in cur]
+            return Ex(cur)
+
+    class Cm:
+        def __init__(self, ex):
+            self.expr = ex
+            self.keys = tuple(dict.fromkeys(ex.names))
+
+        def replace_key(self, cur, new):
+            return Cm(self.expr.subs({str(cur): str(new)}))
+    for img in _it.product('abc', repeat=2):
+        km = {'a': img[0], 'b': img[1]}
+
+        def call_hook(call, it, _km=km):
+            s_ = ast.unparse(call.func)
+            if s_.endswith('with_measurement_key_mapping') and len(call.args) == 2:
+                return _km.get(str(it.ev(call.args[0])), str(it.ev(call.args[0])))
+            if s_.endswith('Symbol') or s_ == 'str':
+                return str(it.ev(call.args[0]))
+            if s_.split('.')[-1] in ('SympyCondition', 'cls'):
+                v = it.ev(call.args[0]) if call.args else it.ev(call.keywords[0].value)
+                return Cm(v)
+            return NotImplemented
+        it = fdx.NumInterp({'self': Cm(Ex(('a', 'b'))), 'key_map': dict(km)}, call_hook=call_hook)
+        base_attr = it.attr_hook
+
+        def attr2(node, itp, _o=base_attr):
+            if _o is not None:
+                r0 = _o(node, itp)
+                if r0 is not NotImplemented:
+                    return r0
+            try:
+                v = itp.ev(node.value)
+            except fdx.Unsupported:
+                return NotImplemented
+            if isinstance(v, (Cm, Ex)) and hasattr(v, node.attr):
+                return getattr(v, node.attr)
+            return NotImplemented
+        it.attr_hook = attr2
+        try:
+            res = it.call(fn_)
+        except fdx.Unsupported as ex:
+            raise AnalysisError(f'{owner_.name}._with_measurement_key_mapping_ is outside the interpretable subset: {ex}')
+        got = res.expr.names if isinstance(res, Cm) else None
+        want = (km['a'], km['b'])
+        ctx.ob('C12.j', f'cirq.value.condition.SympyCondition:key_map={km}', got == want,
+               '' if got == want else f'`a > b` remapped with {km} becomes `{got[0] if got else None} > {got[1] if got else None}` instead of `{want[0]} > {want[1]}`',
+               owner_.mod.rel, fn_.lineno, construct='cirq.value.condition.SympyCondition._with_measurement_key_mapping_')
 
 
 def _is_carrying(v, ci, builders, params, assigned, depth=0):
